@@ -334,4 +334,91 @@ theorem op_tracks (t t' : Tab) (op : Tab.Op) (out : Option (Bool × Bool)) (hop 
       rw [hrm] at h; simp at h; rw [← h.1]
       exact (ptrace_tracks t t1 k os hv hr hrm).2
 
+/-! ### consequences used by the property file -/
+
+/-- after a Z measurement of `q` (either branch) `(-1)^outcome Z_q` is in the group -/
+theorem measure_leaves_Zq (t : Tab) (q : Nat) (o : Bool) (hq : q < t.n) (hv : t.Valid) (hr : t.StabReal) :
+    Grp (t.zMeasure q o).1 (Zq q (t.zMeasure q o).2.1) := by
+  cases hp : t.pivot q with
+  | some p =>
+    have e : t.zMeasure q o = (t.measRandom q p o, o, p) := by simp [zMeasure, hp]
+    rw [e]
+    show Grp (t.measRandom q p o) (Zq q o)
+    rw [measRandom_grp t q p o hv hr hq hp]
+    exact ⟨by simp [Zq], Or.inr (InSpan.eqv _ _ InSpan.one (mul_self t.n (Zq q o) rfl).symm)⟩
+  | none =>
+    have e : t.zMeasure q o = (t, (t.measScratch q).r, 0) := by simp [zMeasure, hp]
+    rw [e]
+    exact measDet_grp_Zq t hv hr q hq hp
+
+theorem xg_fix (n q : Nat) (P : PRow) (hz : P.z q = false) : EqOn n (PRow.xg q P) P := by
+  refine (xg_eqOn n q P).trans ⟨fun j _ => ⟨rfl, rfl⟩, ?_, rfl⟩
+  simp [hz]
+
+/-- after `reset_z(q, intended)` the row `(-1)^intended Z_q` is in the group -/
+theorem resetZ_has_Zq (t : Tab) (q : Nat) (i o : Bool) (hq : q < t.n) (hv : t.Valid) (hr : t.StabReal) :
+    Grp (t.resetZ q i o) (Zq q i) := by
+  have g := (resetZ_tracks t q i o hq hv hr).2
+  have : (gstate (t.resetZ q i o)).G (Zq q i) := by
+    rw [g]
+    by_cases hR : Random (Grp t) q
+    · exact Or.inl ⟨hR, by simp [Zq], Or.inr (InSpan.eqv _ _ InSpan.one (mul_self t.n (Zq q i) rfl).symm)⟩
+    · have hp : t.pivot q = none := by
+        cases hp : t.pivot q with
+        | none => rfl
+        | some p => exact absurd ((random_iff_pivot t q hq).mpr (by rw [hp]; rfl)) hR
+      have hz := measDet_grp_Zq t hv hr q hq hp
+      by_cases hs : (t.measScratch q).r = i
+      · rw [hs] at hz
+        exact Or.inr (Or.inl ⟨hR, hz, hz⟩)
+      · have hs' : (t.measScratch q).r = !i := by revert hs; cases (t.measScratch q).r <;> cases i <;> simp
+        rw [hs'] at hz
+        refine Or.inr (Or.inr ⟨hR, hz, Zq q (!i), hz, ?_⟩)
+        have := xg_Zq t.n q (!i)
+        rw [Bool.not_not] at this
+        exact this.symm
+  exact this
+
+/-- on the rows with an identity on `q`, `reset_z(q, intended)` acts like the Z measurement with outcome `intended` -/
+theorem resetZ_other_qubits (t : Tab) (q : Nat) (i o : Bool) (hq : q < t.n) (hv : t.Valid) (hr : t.StabReal)
+    (P : PRow) (hx : P.x q = false) (hz : P.z q = false) :
+    Grp (t.resetZ q i o) P ↔ Grp (t.zMeasure q i).1 P := by
+  cases hp : t.pivot q with
+  | some p =>
+    have e : (t.zMeasure q i).1 = t.measRandom q p i := by simp [zMeasure, hp]
+    rw [e]; exact resetZ_random_grp t q p i o hr hq hp P
+  | none =>
+    have e : (t.zMeasure q i).1 = t := by simp [zMeasure, hp]
+    rw [e, resetZ_det_eq t q i o hp]
+    by_cases hs : (t.measScratch q).r = i
+    · rw [if_pos hs]
+    · rw [if_neg hs]
+      show Grp (t.map (PRow.xg q)) P ↔ _
+      rw [map_grp t _ (isAut1_xg t.n q hq)]
+      constructor
+      · rintro ⟨Q, hQ, e⟩
+        have e' : EqOn t.n P ({ Q with r := xor Q.r (Q.z q) } : PRow) := e.trans (xg_eqOn t.n q Q)
+        have qz : Q.z q = false := by rw [← hz]; exact ((e'.1 q hq).2).symm
+        exact InSpan.eqv _ _ hQ (e.trans (xg_fix t.n q Q qz)).symm
+      · intro h
+        exact ⟨P, h, (xg_fix t.n q P hz).symm⟩
+
+/-! ### boolean checks for concrete examples -/
+
+theorem eqOn_check (n : Nat) (a b : PRow) (h : PRow.beqOn n a b = true) : EqOn n a b := by
+  unfold PRow.beqOn at h
+  simp only [Bool.and_eq_true, List.all_eq_true, List.mem_range, beq_iff_eq] at h
+  exact ⟨fun j hj => h.1.1 j hj, h.1.2, h.2⟩
+
+/-- boolean version of `StabReal` -/
+def stabRealB (t : Tab) : Bool := (List.range t.n).all fun i => !(t.row (i + t.n)).ip
+
+theorem stabRealB_spec (t : Tab) (h : stabRealB t = true) : t.StabReal := by
+  unfold stabRealB at h
+  simp only [List.all_eq_true, List.mem_range, Bool.not_eq_true'] at h
+  intro i h1 h2
+  have := h (i - t.n) (by omega)
+  rw [show i - t.n + t.n = i by omega] at this
+  exact this
+
 end Graphiq.TabSpec
